@@ -456,9 +456,25 @@ func (env *Env) modTargets(c *Contract) []modTarget {
 		src := exprString(m)
 		switch x := m.(type) {
 		case *ECall:
+			if x.Fn == "onceDone" || x.Fn == "locked" {
+				if lv := env.evalLV(x.Args[0]); lv != nil && strings.HasPrefix(e.typeName(lv.Typ), "sync.") {
+					out = append(out, modTarget{ghost: x.Fn, key: env.fc.interiorPtr(lv), src: src})
+					continue
+				}
+			}
 			if g, ok := e.spec.Ghosts[x.Fn]; ok {
 				k := env.eval(x.Args[0])
 				out = append(out, modTarget{ghost: g.Name, key: k.T[len(k.T)-1], src: src})
+				continue
+			}
+			if x.Fn == "mapOf" {
+				m := env.eval(x.Args[0])
+				mt, ok := m.Typ.Underlying().(*types.Map)
+				if !ok {
+					env.fail("mapOf: not a map")
+				}
+				out = append(out, modTarget{lv: &LV{Col: "map:" + e.typeName(m.Typ), Ref: m.one(), Typ: mt.Elem()}, src: src})
+				out = append(out, modTarget{ghost: "mapLen", key: m.one(), src: src})
 				continue
 			}
 			if x.Fn == "elems" {
